@@ -60,6 +60,11 @@ def run_case(case):
                         other_ctrls += [c1, c2]
                         if k % 6 == 0 and c1.status.value != 'finished':
                             c1.cancel()
+                    if case.get('disturb') and k % 3 == 1:
+                        # a one-shot job due a fraction of a second AFTER the occurrence (same second for most
+                        # triggers) is queued before it: the recurring job must still be the head and run on time
+                        c3 = builder.once(Instant.from_timestamp_nanos(nr + 300_000_000), lambda: others.append(clock.ns))
+                        other_ctrls.append(c3)
                     if case.get('pre') and nr - clock.ns > 2_000_000:
                         # a wake-up shortly before the occurrence must not start the job
                         clock.set(nr - 1_000_000)
